@@ -26,6 +26,9 @@ Cases ==
   {[type |-> "parse", e |-> e] : e \in ParseErrors}
   \cup {[type |-> "unexpected", expected |-> S, found |-> f, offset |-> o] : S \in SUBSET K, f \in K, o \in {0, 5}}
   \cup {[type |-> "duplicate", key |-> k] : k \in Keys}
+  \cup {[type |-> "serde", side |-> sd, e |-> [variant |-> "custom", msg |-> m]] : sd \in {"ser", "de"}, m \in {<<"x">>, <<"invalid type: ", 233, " `", 96>>, <<>>}}
+  \cup {[type |-> "serde", side |-> sd, e |-> [variant |-> "non_string_key"]] : sd \in {"ser", "de"}}
+  \cup {[type |-> "serde", side |-> "ser", e |-> [variant |-> "malformed_number"]]}
 
 VARIABLES c, go
 vars == <<c, go>>
@@ -38,11 +41,12 @@ Out == CASE c.type = "parse" -> [k |-> "msg", type |-> "parse", e |-> c.e, text 
          [] c.type = "unexpected" -> [k |-> "msg", type |-> "unexpected", expected |-> Ascending(c.expected), found |-> c.found, offset |-> c.offset,
                                       text |-> MappedText(UnexpectedText(c.expected, c.found))]
          [] c.type = "duplicate" -> [k |-> "msg", type |-> "duplicate", key |-> c.key, text |-> DuplicateEntryText(c.key)]
+         [] c.type = "serde" -> [k |-> "msg", type |-> "serde", side |-> c.side, e |-> c.e, text |-> SerdeErrorText(c.e)]
 
 Dump == go => PrintT(ToJson(Out))
 
 \* design level: a text is never empty, and a position is the start of the span
 Sane == LET o == Out IN
-        /\ Len(o.text) > 0
+        /\ (c.type # "serde" => Len(o.text) > 0)
         /\ (c.type = "parse" => o.pos = o.span[1] /\ o.span[1] <= o.span[2])
 =============================================================================
